@@ -62,7 +62,8 @@ pub fn run(o: &Opts) -> i32 {
                         // --- property oracle (model-independent) ---
                         let zero = Numeric::from(0);
                         let is_base = s.amount == Number::one();
-                        if !is_base || a == zero || p.input.value == zero || p.output.value == zero { continue; }
+                        // (a zero amount is an amount like any other: its output is zero)
+                        if !is_base || p.input.value == zero || p.output.value == zero { continue; }
                         if di == 0 && name == p.output_name && count(name) == 1 && !d.is_dimensionless() {
                             // output of amount a in the input dimensionality = output * (a / input)
                             linear_checked += 1;
